@@ -249,6 +249,8 @@ def monitor(reqs, replies, roles):
     next_id = collections.defaultdict(lambda: 1)
     inprog = collections.defaultdict(dict)   # operations in progress per session, tracked from API outcomes only
     tail = collections.defaultdict(bytes)    # delivered bytes not yet forming a complete unit (independent framing)
+    delivered_reqs = collections.defaultdict(collections.Counter)   # request ids per server, read from the delivered bytes themselves
+    answered = collections.defaultdict(collections.Counter)         # final responses accepted per server and id
 
     def viol(prop, key, what, i):
         v[prop].append({"key": key, "what": what, "step": i, "history": reqs[: i + 1]})
@@ -299,6 +301,11 @@ def monitor(reqs, replies, roles):
                 viol("C10", None, f"a refused send call failed with {ok} instead of the library's error type", i)
             if have_int and ao != bo:
                 viol("C10", None, "a refused send call changed the outgoing byte stream", i)
+        if role == "server" and k in FINAL_RESP and accepted:
+            answered[nm][call["id"]] += 1
+            if answered[nm][call["id"]] > delivered_reqs[nm][call["id"]]:
+                viol("C10", None, "server emitted more final responses for an id than requests with that id were delivered to it (a retired request "
+                     "became answerable again)", i)
         if role == "server" and k in SERVER_RESP and accepted:
             if call["id"] not in prog_before:
                 viol("C10", None, "server emitted a response for a request that is not outstanding (never received, or already answered by a final response)", i)
@@ -332,6 +339,15 @@ def monitor(reqs, replies, roles):
             except Exception:  # noqa: BLE001
                 pos = 0
             tail[nm] = buf[pos:] if ok == "msgs" else b""
+            if role == "server" and ok == "msgs" and pos:
+                # requests as they were actually delivered (independent framing and header reading of the bytes, not what receive() returned)
+                try:
+                    for unit in _ber.parse(buf[:pos], deep=True):
+                        kids = unit.kids or []
+                        if len(kids) >= 2 and kids[0].cls == 0 and kids[0].num == 2 and kids[1].cls == 1 and kids[1].num in (0, 3, 23):
+                            delivered_reqs[nm][int.from_bytes(kids[0].content, "big", signed=True)] += 1
+                except Exception:  # noqa: BLE001
+                    pass
         if role == "client" and k == "receive" and before["state"] != "CLOSED" and not tail_before:
             single = q.get("_single")
             if single is not None:
@@ -376,6 +392,8 @@ def monitor(reqs, replies, roles):
                     viol("C08", None, f"state after the call is {after['state']}, the documented automaton gives {st}", i)
             if role == "client" and k == "bind" and prog_before and accepted:
                 viol("C08", None, "a bind was accepted while other operations are outstanding", i)
+            if role == "client" and k == "bind" and not prog_before and ok == "LDAPError":
+                viol("C08", None, "a bind was refused although the session is not CLOSED and no operation is outstanding (e.g. the continuation of a SASL bind)", i)
             if role == "server" and k == "receive" and ok == "msgs":
                 pb = dict(prog_before)
                 for m in out["ms"]:
@@ -541,6 +559,60 @@ def project(prop, reply):
     return {"outcome": o, "sess": s}
 
 
+def scripted_histories():
+    """short directed histories (run through the same monitors and the model as the generated ones): multi-step situations a random walk
+    reaches rarely — a request delivered in pieces and answered twice, calls refused while binding followed by a bind or by a response with
+    the next unused id, SASL continuation, a non-bind request in the middle of a SASL bind"""
+    t = C.tx
+    res = lambda code: {"code": code, "mdn": t(""), "diag": t(""), "refs": None}
+    z = {"mdn": t(""), "diag": t(""), "controls": []}
+    ext_req = lambda i: bytes.fromhex(_pack({"id": i, "op": {"k": "extReq", "name": t("1.2"), "value": None}, "controls": []}))
+    bind_req = lambda i, cred: bytes.fromhex(_pack({"id": i, "op": {"k": "bindReq", "version": 3, "name": t(""), "cred": cred}, "controls": []}))
+    search_req = lambda i: bytes.fromhex(_pack({"id": i, "op": {"k": "searchReq", "base": t(""), "scope": 2, "deref": 0, "size": 0, "time": 0, "typesOnly": False,
+                                                                "filter": {"k": "present", "a": t("cn")}, "attrs": []}, "controls": []}))
+    sasl = {"k": "sasl", "mech": t("GSSAPI"), "creds": "01"}
+    out = []
+
+    def hist(*calls):
+        def build(names):
+            cn, sn = names
+            reqs = [{"op": "sess_new", "name": cn, "role": "client"}, {"op": "sess_new", "name": sn, "role": "server"}]
+            for who, call in calls:
+                reqs.append({"op": "call", "name": cn if who == "c" else sn, "call": call})
+            return reqs
+        out.append(build)
+
+    rx = lambda b: {"k": "receive", "chunk": bytes(b).hex()}
+    ext_resp = lambda i: {"k": "extendedResponse", "id": i, "name": None, "value": None, "code": 0, **z}
+    bind_resp = lambda i, code: {"k": "bindResponse", "id": i, "sasl": None, "code": code, **z}
+    for req in (ext_req(1), search_req(1)):
+        for k in sorted({1, 2, len(req) // 2, len(req) - 1}):
+            fin = ext_resp(1) if req == ext_req(1) else {"k": "done", "id": 1, "code": 0, **z}
+            hist(("s", rx(req[:k])), ("s", rx(req[k:])), ("s", fin), ("s", rx(b"")), ("s", fin), ("s", rx(ext_req(2))), ("s", fin), ("s", ext_resp(2)),
+                 ("s", {"k": "drain", "amount": None}))
+            hist(("s", rx(req[:k])), ("s", rx(req[k:] + ext_req(2)[:3])), ("s", fin), ("s", rx(ext_req(2)[3:])), ("s", fin), ("s", ext_resp(2)), ("s", fin))
+    bind_c = {"k": "bind", "dn": t(""), "cred": sasl, "controls": []}
+    ext_c = {"k": "extended", "name": t("1.2"), "value": None, "controls": []}
+    srch_c = {"k": "search", "base": t(""), "scope": 2, "deref": 0, "size": 0, "time": 0, "typesOnly": False, "filter": None, "attrs": [], "controls": []}
+    pk = lambda m: bytes.fromhex(_pack(m))
+    in_progress = pk({"id": 1, "op": {"k": "bindResp", "res": res(14), "sasl": "aa"}, "controls": []})
+    ok1 = pk({"id": 1, "op": {"k": "bindResp", "res": res(0), "sasl": None}, "controls": []})
+    ext2 = pk({"id": 2, "op": {"k": "extResp", "res": res(0), "name": None, "value": None}, "controls": []})
+    done2 = pk({"id": 2, "op": {"k": "searchDone", "res": res(0)}, "controls": []})
+    for refused in (ext_c, srch_c):
+        # refused while binding, then the SASL continuation must still be possible
+        hist(("c", bind_c), ("c", rx(in_progress)), ("c", refused), ("c", bind_c), ("c", {"k": "drain", "amount": None}))
+        # refused while binding, then a response carrying the id the refused call would have got
+        hist(("c", bind_c), ("c", refused), ("c", rx(ok1)), ("c", rx(ext2)))
+        hist(("c", bind_c), ("c", refused), ("c", rx(ok1)), ("c", rx(done2)))
+        hist(("c", bind_c), ("c", refused), ("c", refused), ("c", rx(ok1)), ("c", ext_c), ("c", rx(ext2)), ("c", rx(ext2)))
+    # server in the middle of a SASL bind
+    hist(("s", rx(bind_req(1, sasl))), ("s", bind_resp(1, 14)), ("s", rx(ext_req(2))), ("s", ext_resp(2)), ("s", rx(bind_req(3, sasl))), ("s", bind_resp(3, 0)))
+    hist(("s", rx(bind_req(1, sasl))), ("s", bind_resp(1, 14)), ("s", bind_resp(1, 0)), ("s", bind_resp(7, 0)), ("s", rx(bind_req(2, sasl))), ("s", bind_resp(2, 0)),
+         ("s", bind_resp(2, 0)))
+    return out
+
+
 def run_histories(ctx, prop, n_hist, length, mode="mixed"):
     rng = ctx.rng
     all_reqs = []
@@ -549,9 +621,14 @@ def run_histories(ctx, prop, n_hist, length, mode="mixed"):
     hist = collections.Counter()
     distinct = set()
     samples = []
-    for h in range(n_hist):
+    scripts = scripted_histories()
+    hist["scripted-histories"] = len(scripts)
+    for h in range(n_hist + len(scripts)):
         names = (f"c{h}", f"s{h}")
-        reqs = gen_history(rng, length, names, mode="joint" if (mode == "joint" or (mode == "mixed" and h % 3 == 0)) else "crafted")
+        if h < len(scripts):
+            reqs = scripts[h](names)
+        else:
+            reqs = gen_history(rng, length, names, mode="joint" if (mode == "joint" or (mode == "mixed" and h % 3 == 0)) else "crafted")
         # annotate single-message deliveries to clients for the C09 monitor
         replies = drive.run_impl(copy.deepcopy(reqs))
         for q in reqs:
